@@ -1,7 +1,7 @@
 #!/bin/bash
 # tools/seedcheck.sh <PROP> <k> [checks...] : validate a seeded defect from /tmp/seed/<PROP>_work (patch<k>.diff, demo<k>.py) and run checks against it
 P=$1; K=$2; shift 2; CHECKS=${@:-$P}
-W=/tmp/seed/${P}_work; wt=/tmp/sc_${P}_$K
+W=${SEEDROOT:-/tmp/seed}/${P}_work; wt=/tmp/sc_${P}_${K}_$$
 git -C /repo worktree remove --force $wt 2>/dev/null
 git -C /repo worktree add -q --detach $wt HEAD || exit 3
 cd $wt
